@@ -565,7 +565,7 @@ func checkBulkOps(p *Program, r *Report, prop string) {
 			if s.field != "Step" && s.field != "Offset" {
 				continue
 			}
-			base := FuncKey(s.fn) + ":" + s.field
+			base := FuncKey(s.fn) + ":" + s.field + s.ctx
 			ord[base]++
 			n++
 			if s.got.kind == 0 || (s.got.kind == 1 && s.got.eq(s.want)) {
@@ -768,57 +768,53 @@ func checkRestride(p *Program, r *Report, at *arrayType, tname string) {
 	}
 	recv := rs.Params[0]
 	n := 0
+	evs := commonFieldStores(rs)
+	// the storage field belongs to the concrete struct, not to the common part
 	eachInstr(rs, func(_ *ssa.BasicBlock, _ int, ins ssa.Instruction) {
-		st, ok := ins.(*ssa.Store)
-		if !ok {
-			return
+		if s2, ok := ins.(*ssa.Store); ok {
+			if fa2, ok := s2.Addr.(*ssa.FieldAddr); ok && !isCommonStruct(fa2.X.Type()) {
+				if nm, b2, _ := fieldName(fa2); nm == "Impl" {
+					evs = append(evs, fieldStoreEv{field: "Impl", base: b2, val: s2.Val, at: s2})
+				}
+			}
 		}
-		fa, ok := st.Addr.(*ssa.FieldAddr)
-		if !ok {
-			return
+	})
+	for _, ev := range evs {
+		if ev.field != "Offset" || ev.val == nil {
+			continue
 		}
-		name, base, _ := fieldName(fa)
-		if name != "Offset" || !isCommonStruct(fa.X.Type()) {
-			return
-		}
+		st, base := ev.at, ev.base
 		// fresh strides?
-		c, ok := st.Val.(*ssa.Call)
+		c, ok := ev.val.(*ssa.Call)
 		if !ok || callName(c.Common()) != "Offsets" {
-			return
+			continue
 		}
 		n++
 		// the struct being built: base is &result.Common → result alloc
 		res := objOf(base)
 		// find the store to result.Impl reaching/dominating in the same region
-		var implStore *ssa.Store
-		eachInstr(rs, func(_ *ssa.BasicBlock, _ int, i2 ssa.Instruction) {
-			s2, ok := i2.(*ssa.Store)
-			if !ok {
-				return
-			}
-			fa2, ok := s2.Addr.(*ssa.FieldAddr)
-			if !ok {
-				return
-			}
-			if nm, b2, _ := fieldName(fa2); nm == "Impl" && objOf(b2) == res {
-				if s2.Block() == st.Block() || s2.Block().Dominates(st.Block()) || st.Block().Dominates(s2.Block()) {
-					if s2.Block() == st.Block() {
+		var implStore *fieldStoreEv
+		for k := range evs {
+			s2 := &evs[k]
+			if s2.field == "Impl" && s2.val != nil && objOf(s2.base) == res {
+				if s2.at.Block() == st.Block() || s2.at.Block().Dominates(st.Block()) || st.Block().Dominates(s2.at.Block()) {
+					if s2.at.Block() == st.Block() {
 						implStore = s2
 					} else if implStore == nil {
 						implStore = s2
 					}
 				}
 			}
-		})
+		}
 		key := fmt.Sprintf("%s.Reshape:restride#%d", tname, n)
 		if implStore == nil {
 			r.Undecided("R02.5", key, p.Pos(st.Pos()), "view with fresh strides: store to its Impl not found")
-			return
+			continue
 		}
 		// Impl value: receiver's own Impl, or receiver.Unroll()
 		own := false
 		viaUnroll := false
-		for _, o := range origins(implStore.Val) {
+		for _, o := range origins(implStore.val) {
 			if o == nil {
 				continue
 			}
@@ -842,9 +838,9 @@ func checkRestride(p *Program, r *Report, at *arrayType, tname string) {
 				r.Fail("R02.5", key, p.Pos(st.Pos()), "a view with fresh row-major strides is laid over the receiver's own storage on a path where the receiver may be non-contiguous: the reshaped view then addresses elements outside the original view")
 			}
 		default:
-			r.Undecided("R02.5", key, p.Pos(implStore.Pos()), "Impl of the reshaped view has an unrecognised origin")
+			r.Undecided("R02.5", key, p.Pos(implStore.at.Pos()), "Impl of the reshaped view has an unrecognised origin")
 		}
-	})
+	}
 	if n == 0 {
 		// the dense result may be built by a constructor helper: f(receiver.Unroll(), newShape)
 		found := false
